@@ -183,6 +183,9 @@ class ExcVal:
         self.args = args
 
 
+EXECUTED: Optional[set] = set() if __import__("os").environ.get("VERIF_COVERAGE") else None  # development audit: repo functions interpreted
+
+
 class Interp:
     def __init__(self, prog: Program, max_steps: int = 400000):
         self.prog = prog
@@ -255,6 +258,8 @@ class Interp:
         if f.fi is not None and f.fi.key in self.overrides:
             return self.overrides[f.fi.key](self, args, kwargs)
         node = f.node
+        if EXECUTED is not None and f.fi is not None:
+            EXECUTED.add(f.fi.key)
         self.call_depth += 1
         if self.call_depth > 60:
             raise Unsupported("call depth exceeded (recursion?)")
